@@ -140,8 +140,8 @@ static void stage_pruning(void) {
     mc_stage("c.row-group-pruning.reference-files.all-operators.all-probes");
     static const struct { int pt, tl; } TY[] = { { PT_INT32, 0 }, { PT_INT64, 0 }, { PT_FLOAT, 0 }, { PT_DOUBLE, 0 }, { PT_BYTE_ARRAY, 0 }, { PT_FLBA, 2 } };
     for (int t = 0; t < 6; t++) for (int G = 1; G <= 4; G++) for (int layout = 0; layout < (G == 1 ? 6 + 729 : 6); layout++) for (int statmode = 0; statmode < 5; statmode++) for (int opt = 0; opt < 2; opt++) {
-        /* statmode: 0 exact new fields, 1 widened, 2 deprecated fields (numeric types), 3 absent, 4 absent with NaN data (float types) */
-        int pt = TY[t].pt; if (statmode == 2 && (pt == PT_BYTE_ARRAY || pt == PT_FLBA)) continue; if (statmode == 4 && pt != PT_FLOAT && pt != PT_DOUBLE) continue;
+        /* statmode: 0 exact new fields, 1 widened, 2 deprecated fields (byte arrays: bounds in the unsigned byte order carquet compares in), 3 absent, 4 absent with NaN data (float types) */
+        int pt = TY[t].pt; if (statmode == 4 && pt != PT_FLOAT && pt != PT_DOUBLE) continue;
         if (!mc_next()) continue;
         mc_desc("c16c:type=%d;groups=%d;layout=%d;stats=%d;opt=%d", pt, G, layout, statmode, opt); mc_case_key(mc_mix(0x16c, ((uint64_t)t << 40) | ((uint64_t)G << 32) | ((uint64_t)layout << 12) | ((uint64_t)statmode << 4) | (uint64_t)opt)); mc_nontrivial();
         /* data: 3 rows per group from a per-type ordered pool of 9 values; layout decides which values each group holds */
